@@ -1095,15 +1095,19 @@ impl<'env> Executor<'env> {
                 "template name was not a string",
             ));
         };
-        if state.loaded_templates.contains(&name) {
-            return Err(Error::new(
-                ErrorKind::InvalidOperation,
-                format!("cycle in template inheritance. {name:?} was referenced more than once"),
-            ));
-        }
         let tmpl = ok!(state.get_template(name));
         let (new_instructions, new_blocks) = ok!(tmpl.instructions_and_blocks());
-        state.loaded_templates.insert(new_instructions.name());
+        // the cycle check goes by the name of the template that was loaded: with a
+        // path join callback the same template is referred to by different names.
+        if !state.loaded_templates.insert(new_instructions.name()) {
+            return Err(Error::new(
+                ErrorKind::InvalidOperation,
+                format!(
+                    "cycle in template inheritance. {:?} was referenced more than once",
+                    new_instructions.name()
+                ),
+            ));
+        }
         for (name, instr) in new_blocks.iter() {
             state
                 .blocks
